@@ -149,8 +149,9 @@ func vsyTrunc(xs []string, n int) []string {
 // ---------------------------------------------------------------- recording
 
 type vsyBlob struct {
-	key string
+	key string // "channel/kind" of spec/Secrecy.tla Inventory ("<rpc>.err" = the error reply of that RPC)
 	err bool
+	cas string // the refusal path the harness drove
 	b   []byte
 }
 
@@ -168,14 +169,33 @@ type vsyRec struct {
 }
 
 func (r *vsyRec) add(key string, isErr bool, b []byte) {
+	r.addCase(key, "", isErr, b)
+}
+
+func (r *vsyRec) addCase(key, cas string, isErr bool, b []byte) {
+	if isErr && !strings.HasSuffix(key, ".err") {
+		key += ".err" // an error reply is a response of its own kind
+	}
 	r.mu.Lock()
-	r.blobs = append(r.blobs, vsyBlob{key, isErr, append([]byte(nil), b...)})
+	r.blobs = append(r.blobs, vsyBlob{key, isErr, cas, append([]byte(nil), b...)})
 	r.mu.Unlock()
 }
 
 func (r *vsyRec) addMsg(key string, m proto.Message, err error) {
+	r.addReply(key, "", m, err)
+}
+
+func (r *vsyRec) addReply(key, cas string, m proto.Message, err error) {
 	if err != nil {
-		r.add(key, true, []byte(err.Error()))
+		r.addCase(key, cas, true, []byte(err.Error()))
+		return
+	}
+	if cas != "" {
+		var b []byte
+		if m != nil && fmt.Sprintf("%v", m) != "<nil>" {
+			b, _ = proto.Marshal(m)
+		}
+		r.addCase(key, cas, false, b)
 		return
 	}
 	if m == nil || (fmt.Sprintf("%v", m) == "<nil>") {
@@ -249,6 +269,7 @@ type vsyWorld struct {
 	gshare  *share.PriShare
 	secrets *vsyScanner
 	dbEpoch int
+	cas     string // label of the refusal path being driven (recorded with the replies of call)
 	stop    func()
 }
 
@@ -457,7 +478,11 @@ func (w *vsyWorld) flush(tr *vlib.Trace) {
 	defer w.rec.mu.Unlock()
 	for _, b := range w.rec.blobs {
 		sec := w.secrets.scan(b.b)
-		tr.Emit("Emit", vlib.E{"node": 1, "key": b.key, "err": b.err, "size": len(b.b), "secret": len(sec) > 0, "sens": false, "hits": vsyTrunc(sec, 4)})
+		ev := vlib.E{"node": 1, "key": b.key, "err": b.err, "size": len(b.b), "secret": len(sec) > 0, "sens": false, "hits": vsyTrunc(sec, 4)}
+		if b.cas != "" {
+			ev["case"] = b.cas
+		}
+		tr.Emit("Emit", ev)
 	}
 	for _, f := range w.rec.files {
 		sec := w.secrets.scan(f.b)
@@ -577,10 +602,10 @@ func (w *vsyWorld) httpGet(key, path string) {
 		body, _ := io.ReadAll(rr.Body)
 		var hdr bytes.Buffer
 		_ = rr.Header().Write(&hdr)
-		w.rec.add(key, rr.Code != http.StatusOK, append(hdr.Bytes(), body...))
+		w.rec.addCase(key, w.cas, rr.Code != http.StatusOK, append(hdr.Bytes(), body...))
 	})
 	if !r.Returned {
-		w.rec.add(key, true, []byte("blocked"))
+		w.rec.addCase(key, w.cas, true, []byte("blocked"))
 	}
 }
 
@@ -589,22 +614,25 @@ func (w *vsyWorld) call(key, id string) bool {
 	ctx := context.Background()
 	md := func() *drand.Metadata { return &drand.Metadata{BeaconID: id} }
 	c := w.chains[id]
+	if c == nil {
+		c = &vsyChain{id: id, hashHex: strings.Repeat("ab", 32)} // a chain this daemon does not host
+	}
 	do := func(f func()) {
 		r := vlib.Call(20*time.Second, f)
 		if !r.Returned {
-			w.rec.add(key, true, []byte("blocked"))
+			w.rec.addCase(key, w.cas, true, []byte("blocked"))
 		} else if r.Panic != "" {
-			w.rec.add(key, true, []byte("panic: "+r.Panic))
+			w.rec.addCase(key, w.cas, true, []byte("panic: "+r.Panic))
 		}
 	}
 	switch key {
 	case "protocol/GetIdentity":
-		do(func() { r, err := w.dd.GetIdentity(ctx, &drand.IdentityRequest{Metadata: md()}); w.rec.addMsg(key, r, err) })
+		do(func() { r, err := w.dd.GetIdentity(ctx, &drand.IdentityRequest{Metadata: md()}); w.rec.addReply(key, w.cas, r, err) })
 	case "protocol/PartialBeacon":
 		do(func() {
 			m := md()
 			r, err := w.dd.PartialBeacon(ctx, &drand.PartialBeaconPacket{Round: 1, PartialSig: []byte{0, 1, 2, 3}, Metadata: m})
-			w.rec.addMsg(key, r, err)
+			w.rec.addReply(key, w.cas, r, err)
 		})
 	case "protocol/SyncChain":
 		do(func() {
@@ -613,18 +641,18 @@ func (w *vsyWorld) call(key, id string) bool {
 			st := &vsySyncStream{ctx: cx, cancel: cancel, w: w, key: key}
 			err := w.dd.SyncChain(&drand.SyncRequest{FromRound: 1, Metadata: md()}, st)
 			if err != nil && st.n == 0 {
-				w.rec.addMsg(key, nil, err)
+				w.rec.addReply(key, w.cas, nil, err)
 			}
 		})
 	case "protocol/Status":
 		do(func() {
 			r, err := w.dd.Status(ctx, &drand.StatusRequest{Metadata: md(), CheckConn: []*drand.Address{{Address: w.ghost.Public.Addr}}})
-			w.rec.addMsg(key, r, err)
+			w.rec.addReply(key, w.cas, r, err)
 		})
 	case "public/PublicRand":
 		for _, round := range []uint64{0, 1} {
 			rd := round
-			do(func() { r, err := w.dd.PublicRand(ctx, &drand.PublicRandRequest{Round: rd, Metadata: md()}); w.rec.addMsg(key, r, err) })
+			do(func() { r, err := w.dd.PublicRand(ctx, &drand.PublicRandRequest{Round: rd, Metadata: md()}); w.rec.addReply(key, w.cas, r, err) })
 		}
 	case "public/PublicRandStream":
 		do(func() {
@@ -633,72 +661,75 @@ func (w *vsyWorld) call(key, id string) bool {
 			st := &vsyPubStream{ctx: cx, cancel: cancel, w: w}
 			err := w.dd.PublicRandStream(&drand.PublicRandRequest{Round: 1, Metadata: md()}, st)
 			if err != nil && st.n == 0 {
-				w.rec.addMsg(key, nil, err)
+				w.rec.addReply(key, w.cas, nil, err)
 			}
 		})
 	case "public/ChainInfo", "control/ChainInfo":
-		do(func() { r, err := w.dd.ChainInfo(ctx, &drand.ChainInfoRequest{Metadata: md()}); w.rec.addMsg(key, r, err) })
+		do(func() { r, err := w.dd.ChainInfo(ctx, &drand.ChainInfoRequest{Metadata: md()}); w.rec.addReply(key, w.cas, r, err) })
 	case "public/ListBeaconIDs":
-		do(func() { r, err := w.dd.ListBeaconIDs(ctx, &drand.ListBeaconIDsRequest{}); w.rec.addMsg(key, r, err) })
+		do(func() { r, err := w.dd.ListBeaconIDs(ctx, &drand.ListBeaconIDsRequest{}); w.rec.addReply(key, w.cas, r, err) })
 	case "dkgpublic/Packet":
 		do(func() {
 			r, err := w.dd.Packet(ctx, &pdkg.GossipPacket{Metadata: &pdkg.GossipMetadata{BeaconID: id, Address: w.ghost.Public.Addr, Signature: []byte("0123456789abcdef")},
 				Packet: &pdkg.GossipPacket_Abort{Abort: &pdkg.AbortDKG{Reason: "vsy"}}})
-			w.rec.addMsg(key, r, err)
+			w.rec.addReply(key, w.cas, r, err)
 		})
 	case "dkgpublic/BroadcastDKG":
 		do(func() {
 			r, err := w.dd.BroadcastDKG(ctx, &pdkg.DKGPacket{Dkg: &pdkg.Packet{Metadata: md(),
 				Bundle: &pdkg.Packet_Response{Response: &pdkg.ResponseBundle{ShareIndex: 1, SessionId: []byte("vsy"), Signature: []byte("vsy")}}}})
-			w.rec.addMsg(key, r, err)
+			w.rec.addReply(key, w.cas, r, err)
 		})
 	case "metrics/Metrics":
-		do(func() { r, err := w.dd.Metrics(ctx, &drand.MetricsRequest{}); w.rec.addMsg(key, r, err) })
+		do(func() { r, err := w.dd.Metrics(ctx, &drand.MetricsRequest{}); w.rec.addReply(key, w.cas, r, err) })
 	case "control/PingPong":
-		do(func() { r, err := w.dd.PingPong(ctx, &drand.Ping{Metadata: md()}); w.rec.addMsg(key, r, err) })
+		do(func() { r, err := w.dd.PingPong(ctx, &drand.Ping{Metadata: md()}); w.rec.addReply(key, w.cas, r, err) })
 	case "control/Status":
-		do(func() { r, err := w.dd.Status(ctx, &drand.StatusRequest{Metadata: md()}); w.rec.addMsg(key, r, err) })
+		do(func() { r, err := w.dd.Status(ctx, &drand.StatusRequest{Metadata: md()}); w.rec.addReply(key, w.cas, r, err) })
 	case "control/ListSchemes":
-		do(func() { r, err := w.dd.ListSchemes(ctx, &drand.ListSchemesRequest{}); w.rec.addMsg(key, r, err) })
+		do(func() { r, err := w.dd.ListSchemes(ctx, &drand.ListSchemesRequest{}); w.rec.addReply(key, w.cas, r, err) })
 	case "control/PublicKey":
-		do(func() { r, err := w.dd.PublicKey(ctx, &drand.PublicKeyRequest{Metadata: md()}); w.rec.addMsg(key, r, err) })
+		do(func() { r, err := w.dd.PublicKey(ctx, &drand.PublicKeyRequest{Metadata: md()}); w.rec.addReply(key, w.cas, r, err) })
 	case "control/GroupFile":
-		do(func() { r, err := w.dd.GroupFile(ctx, &drand.GroupRequest{Metadata: md()}); w.rec.addMsg(key, r, err) })
+		do(func() { r, err := w.dd.GroupFile(ctx, &drand.GroupRequest{Metadata: md()}); w.rec.addReply(key, w.cas, r, err) })
 	case "control/LoadBeacon": // already running: the refusal is an answer too (the successful answers are recorded at load time)
-		do(func() { r, err := w.dd.LoadBeacon(ctx, &drand.LoadBeaconRequest{Metadata: md()}); w.rec.addMsg(key, r, err) })
+		do(func() { r, err := w.dd.LoadBeacon(ctx, &drand.LoadBeaconRequest{Metadata: md()}); w.rec.addReply(key, w.cas, r, err) })
 	case "control/StartFollowChain":
 		do(func() {
 			cx, cancel := context.WithTimeout(ctx, 3*time.Second)
 			defer cancel()
 			err := w.dd.StartFollowChain(&drand.StartSyncRequest{Metadata: md(), UpTo: 1}, &vsyProgStream{ctx: cx, w: w, key: key})
-			w.rec.addMsg(key, nil, err)
+			w.rec.addReply(key, w.cas, nil, err)
 		})
 	case "control/StartCheckChain":
 		do(func() {
 			cx, cancel := context.WithTimeout(ctx, 5*time.Second)
 			defer cancel()
 			err := w.dd.StartCheckChain(&drand.StartSyncRequest{Metadata: md(), Nodes: []string{w.addr}, UpTo: 2}, &vsyProgStream{ctx: cx, w: w, key: key})
-			w.rec.addMsg(key, nil, err)
+			w.rec.addReply(key, w.cas, nil, err)
 		})
 	case "control/BackupDatabase":
 		do(func() {
 			r, err := w.dd.BackupDatabase(ctx, &drand.BackupDBRequest{OutputFile: filepath.Join(w.folder, "backup.db"), Metadata: md()})
-			w.rec.addMsg(key, r, err)
+			w.rec.addReply(key, w.cas, r, err)
 		})
 	case "control/RemoteStatus":
 		do(func() {
 			r, err := w.dd.RemoteStatus(ctx, &drand.RemoteStatusRequest{Metadata: md(), Addresses: []*drand.Address{{Address: w.addr}, {Address: w.ghost.Public.Addr}}})
-			w.rec.addMsg(key, r, err)
+			w.rec.addReply(key, w.cas, r, err)
 		})
 	case "control/Shutdown":
-		return true // exercised at the end of the scenario (it stops the chain)
+		if w.chains[id] != nil {
+			return true // exercised at the end of the scenario (it stops the chain)
+		}
+		do(func() { r, err := w.dd.Shutdown(ctx, &drand.ShutdownRequest{Metadata: md()}); w.rec.addReply(key, w.cas, r, err) })
 	case "dkgcontrol/Command":
 		do(func() {
 			r, err := w.dd.Command(ctx, &pdkg.DKGCommand{Metadata: &pdkg.CommandMetadata{BeaconID: id}, Command: &pdkg.DKGCommand_Accept{Accept: &pdkg.AcceptOptions{}}})
-			w.rec.addMsg(key, r, err)
+			w.rec.addReply(key, w.cas, r, err)
 		})
 	case "dkgcontrol/DKGStatus":
-		do(func() { r, err := w.dd.DKGStatus(ctx, &pdkg.DKGStatusRequest{BeaconID: id}); w.rec.addMsg(key, r, err) })
+		do(func() { r, err := w.dd.DKGStatus(ctx, &pdkg.DKGStatusRequest{BeaconID: id}); w.rec.addReply(key, w.cas, r, err) })
 	case "http/chains":
 		w.httpGet(key, "/chains")
 	case "http/info":
@@ -725,6 +756,66 @@ func (w *vsyWorld) call(key, id string) bool {
 		return false
 	}
 	return true
+}
+
+// refusals drives the rejection paths of the peer-facing RPCs of a running chain: partial beacons that must be
+// refused, requests for rounds that do not exist, and every RPC of the plan for a beacon id / chain hash this
+// daemon does not host.  The error text is the reply the remote caller gets.
+func (w *vsyWorld) refusals(plan vsyPlan, id string) {
+	ctx := context.Background()
+	last := w.lastRound(id)
+	bp := w.bp(id)
+	var prev []byte
+	if bp != nil && bp.beacon != nil {
+		if b, err := bp.beacon.Store().Last(ctx); err == nil && b != nil {
+			prev = b.Signature
+		}
+	}
+	partial := func(cas string, round uint64, idx int, mutate func([]byte) []byte, beacon string) {
+		msg := w.sch.DigestBeacon(&common.Beacon{Round: round, PreviousSig: prev})
+		sig, err := w.sch.ThresholdScheme.Sign(&share.PriShare{I: idx, V: w.sch.KeyGroup.Scalar().Pick(random.New())}, msg)
+		if err != nil {
+			return
+		}
+		if mutate != nil {
+			sig = mutate(sig)
+		}
+		md := drand.NewMetadata(common.GetAppVersion().ToProto())
+		md.BeaconID = beacon
+		pkt := &drand.PartialBeaconPacket{Round: round, PreviousSignature: prev, PartialSig: sig, Metadata: md}
+		var resp *drand.Empty
+		r := vlib.Call(10*time.Second, func() { resp, err = w.dd.PartialBeacon(ctx, pkt) })
+		if r.Returned && r.Panic == "" {
+			w.rec.addReply("protocol/PartialBeacon", cas, resp, err)
+		} else {
+			w.rec.addCase("protocol/PartialBeacon", cas, true, []byte("blocked or panic: "+r.Panic))
+		}
+	}
+	partial("partial beacon signed with a wrong share", last+1, 1, nil, id)
+	partial("partial beacon with the node's own index", last+1, 0, nil, id)
+	partial("partial beacon from an index outside the group", last+1, 7, nil, id)
+	partial("partial beacon for a far future round", last+1000, 1, nil, id)
+	partial("partial beacon with a truncated signature", last+1, 1, func(b []byte) []byte { return b[:len(b)/2] }, id)
+	partial("partial beacon for an unknown beacon id", last+1, 1, nil, "nosuch")
+	w.cas = "round that does not exist"
+	for _, k := range []string{"public/PublicRand"} {
+		key := k
+		r := vlib.Call(10*time.Second, func() {
+			resp, err := w.dd.PublicRand(ctx, &drand.PublicRandRequest{Round: last + 100000, Metadata: &drand.Metadata{BeaconID: id}})
+			w.rec.addReply(key, w.cas, resp, err)
+		})
+		_ = r
+	}
+	if c := w.chains[id]; c != nil {
+		w.httpGet("http/public.round", "/"+c.hashHex+"/public/"+fmt.Sprint(last+100000))
+		w.cas = "malformed round"
+		w.httpGet("http/public.round", "/"+c.hashHex+"/public/abc")
+	}
+	w.cas = "unknown beacon id"
+	for _, k := range plan.Responses {
+		w.call(k, "nosuch")
+	}
+	w.cas = ""
 }
 
 type vsyPlan struct {
@@ -807,6 +898,7 @@ func vsyRunDaemon(t *testing.T, tr *vlib.Trace, sch *crypto.Scheme, plan vsyPlan
 		return
 	}
 	w.runPlan(tr, name, plan, "default", "member")
+	w.refusals(plan, "default")
 	w.snapshot("member")
 	// chain b finishes a DKG: the daemon stores group and share itself, starts the beacon (1-of-1)
 	cb := w.chains["b"]
